@@ -1,6 +1,7 @@
 package main
 
 import (
+	"strings"
 	"fmt"
 	"sort"
 
@@ -100,7 +101,7 @@ func (m *MonC20) owner(ctx sdk.Context, o orderSnap, owner string) ownerSnap {
 	}
 	sort.Slice(ids, func(i, j int) bool { return ids[i] < ids[j] })
 	for _, id := range ids {
-		os.escrow = os.escrow.Add(app.BankKeeper.GetAllBalances(ctx, o.spot[id].GetOrderAddress())...)
+		os.escrow = os.escrow.Add(app.BankKeeper.SpendableCoins(ctx, o.spot[id].GetOrderAddress())...)
 	}
 	ids = ids[:0]
 	for id, x := range o.perp {
@@ -110,7 +111,7 @@ func (m *MonC20) owner(ctx sdk.Context, o orderSnap, owner string) ownerSnap {
 	}
 	sort.Slice(ids, func(i, j int) bool { return ids[i] < ids[j] })
 	for _, id := range ids {
-		os.escrow = os.escrow.Add(app.BankKeeper.GetAllBalances(ctx, o.perp[id].GetOrderAddress())...)
+		os.escrow = os.escrow.Add(app.BankKeeper.SpendableCoins(ctx, o.perp[id].GetOrderAddress())...)
 	}
 	for _, mtp := range app.PerpetualKeeper.GetAllMTPs(ctx) {
 		if mtp.Address == owner {
@@ -431,6 +432,28 @@ func (m *MonC20) checkCancelPerp(ctx sdk.Context, t *ExecTx, pre *c20Pre, post o
 }
 
 func (m *MonC20) AfterBlock(s *Sim, eb *ExecBlock) {
+	// "owner-controlled": the owner's own cancel of an order that was pending when the transaction
+	// started must go through (running out of the gas the sender chose excepted)
+	for _, t := range eb.Txs {
+		pre := m.pre[t.Index]
+		if pre == nil || t.OK() || strings.Contains(t.Res.Log, "out of gas") {
+			continue
+		}
+		msgs := flattenMsgs(t.Spec.Msgs)
+		if len(msgs) != 1 {
+			continue
+		}
+		switch x := msgs[0].(type) {
+		case *tradeshieldtypes.MsgCancelSpotOrder:
+			if o, ok := pre.orders.spot[x.OrderId]; ok && o.OwnerAddress == x.OwnerAddress && x.OwnerAddress == t.Spec.Signer {
+				s.Violate("C20", "owner_cannot_cancel", "tradeshield.MsgCancelSpotOrder", "owner %s cannot cancel its pending spot order %d (escrow %s): %s", shortAddr(x.OwnerAddress), x.OrderId, s.N0.App.BankKeeper.GetAllBalances(s.Ctx(), o.GetOrderAddress()), truncate(firstLine(t.Res.Log), 200))
+			}
+		case *tradeshieldtypes.MsgCancelPerpetualOrder:
+			if o, ok := pre.orders.perp[x.OrderId]; ok && o.OwnerAddress == x.OwnerAddress && x.OwnerAddress == t.Spec.Signer {
+				s.Violate("C20", "owner_cannot_cancel", "tradeshield.MsgCancelPerpetualOrder", "owner %s cannot cancel its pending perpetual order %d: %s", shortAddr(x.OwnerAddress), x.OrderId, truncate(firstLine(t.Res.Log), 200))
+			}
+		}
+	}
 	m.pre = map[int]*c20Pre{}
 	n := len(s.N0.App.TradeshieldKeeper.GetAllPendingSpotOrder(s.Ctx())) + len(s.N0.App.TradeshieldKeeper.GetAllPendingPerpetualOrder(s.Ctx()))
 	if n > 0 {
